@@ -53,7 +53,10 @@ Acc(rw, off, w, v) ==
      ELSE /\ off + w <= 256 + cfgLen                            \* inside the configuration window
           /\ w \in {1, 2, 4, 8}
   /\ selected' = IF rw = "w" /\ off = 48 /\ WToNat(V32(v)) >= 0 THEN WToNat(V32(v)) ELSE selected
-  /\ pageSet' = IF rw = "w" /\ off = 40 THEN WToNat(V32(v)) ELSE pageSet
+  \* a legacy device forgets the guest page size when it is reset (status written as zero)
+  /\ pageSet' = IF rw = "w" /\ off = 40 THEN WToNat(V32(v))
+                ELSE IF rw = "w" /\ off = 112 /\ V32(v) = N32(0) THEN 0
+                ELSE pageSet
   /\ acc' = Append(acc, [rw |-> rw, off |-> off, w |-> w, v |-> V32(v), v64 |-> v])
   /\ UNCHANGED <<ver, cfgLen, op>>
 
